@@ -9,4 +9,6 @@ require (
 	pgregory.net/rapid v1.3.0
 )
 
+require golang.org/x/sys v0.6.0 // indirect
+
 replace github.com/gobwas/ws => /repo
